@@ -19,6 +19,7 @@ import (
 	"fmt"
 	"math/rand"
 	"runtime"
+	"sort"
 	"strings"
 	"sync/atomic"
 	"time"
@@ -870,7 +871,14 @@ func body(w *hx.W) {
 	}
 	di := 0
 	for _, dpt := range depths {
-		for name, ln := range deepFamilies(dpt) {
+		fams := deepFamilies(dpt)
+		var famNames []string
+		for name := range fams {
+			famNames = append(famNames, name)
+		}
+		sort.Strings(famNames) // the shards must agree on the index of a family (map order differs per process)
+		for _, name := range famNames {
+			ln := fams[name]
 			di++
 			if !w.Mine(di) {
 				continue
